@@ -34,6 +34,10 @@ TEXT = {
          "(finally block, saved originals) is extracted from the source AST on every run so that removing it breaks the proof",
          "attributes other than the paths and caller arrays are not in the model: deep-snapshot oracle over all failure points of the property text",
          "Lean 4 theorem over a state-machine model with generated exit skeleton (Gen/Exits) + snapshot oracle with fault injection"),
+ "C07": ("proof (partial): the functional interface's rank table (regenerated from every registered class each run) is rank+1 for every parameter, hence single values "
+         "are tiled and stacks taken per instance, row i gets value or value[i]; wrappers/core/dataframe by cross-interface oracle",
+         "rank of one value read from a valid instance (generator); delegation glue not modelled",
+         "Lean 4 decide over the generated table + tiling lemma; cross-interface differential oracle on all classes and call forms"),
 }
 props = [json.loads(l) for l in open("properties.jsonl")]
 checks = []
